@@ -127,6 +127,10 @@ class ListProxy(list, ContainerValueMixin):
         for pos, current in enumerate(self):
             if current is item:
                 return str(pos)
+        if isinstance(item, Config):
+            # a configuration that is not (yet) in the list is being loaded to be appended; an
+            # equal-valued earlier item must not be mistaken for it
+            return str(len(self))
         try:
             return str(self.index(item))
         except:  # noqa: E722
